@@ -16,6 +16,7 @@ require (
 
 require (
 	github.com/IrineSistiana/connpool v0.0.0-20240326131245-897b52e59cfc // indirect
+	github.com/IrineSistiana/gopool v0.0.0-20240118084800-c21759e56cf2 // indirect
 	github.com/andybalholm/brotli v1.1.0 // indirect
 	github.com/beorn7/perks v1.0.1 // indirect
 	github.com/cespare/xxhash/v2 v2.2.0 // indirect
